@@ -3,7 +3,7 @@
 Require Extraction.
 Require Import ExtrOcamlBasic.
 From JB Require Import Constants Bytes Utf8 Num Value Codec Decimal JsonText Order TreeOps Contain SetOps CmpKey
-  Render Serde Path PathSem PathParse Dispatch Walk CompareWalk ComparableWalk.
+  Render Serde Path PathSem PathParse Dispatch Walk CompareWalk ComparableWalk PathSafe.
 Extraction Language OCaml.
 Extraction "model.ml"
   to_vec write_to_vec enc parse_jsonb is_jsonb assoc_insert
@@ -21,4 +21,5 @@ Extraction "model.ml"
   select_m sel_exists_m sel_predicate_match_m get_by_path_m get_by_path_first_m get_by_path_array_m path_exists_m path_match_m
   to_serde_json_m to_serde_json_object_m value_to_serde serde_to_value
   parse_lazy_value lazy_to_vec lazy_array_length lazy_to_value
-  parse_json_path parse_key_paths show_json_path show_key_paths float_placeholder.
+  parse_json_path parse_key_paths show_json_path show_key_paths float_placeholder
+  safe_path leaf_path no_floats.
